@@ -388,9 +388,13 @@ def _deduplicated(
     handled) **AND** it is detected as pre-existing before operator start.
     But ``fn()`` should be called only once for this cause.
     """
-    seen_ids: set[tuple[int, ids.HandlerId]] = set()
+    seen_ids: set[tuple[Any, ids.HandlerId]] = set()
     for handler in src:
-        key = (id(handler.fn), handler.id)
+        # Bound methods are re-created on every attribute access (``obj.method is not obj.method``):
+        # identify them by their instance & function, all other callables by the object itself.
+        fn = handler.fn
+        fn_key = (id(fn.__self__), id(fn.__func__)) if isinstance(fn, MethodType) else id(fn)
+        key = (fn_key, handler.id)
         if key in seen_ids:
             pass
         else:
